@@ -9,6 +9,8 @@
 #include <thread>
 #include <condition_variable>
 
+#include "fastscapelib/utils/verif_hooks.hpp"
+
 
 namespace fastscapelib
 {
